@@ -1,5 +1,6 @@
 import DaliVerif.Model.Response
 import DaliVerif.Spec.Response
+import DaliVerif.Spec.ResponseTable
 import DaliVerif.Gen.Responses
 import DaliVerif.Drivers.Proto
 /-!
@@ -11,6 +12,7 @@ Line protocol for the response model and the C06 specification.
     attr <module:Class> <name> <o>
     classes                                          -> ok <module:Class> …
     spec cat <module:Class>                          -> ok <category>
+    spec row <module:Class>                          -> ok exp=… erra=… bits=… members=… types=… | ok absent   (Spec.Resp.table)
     spec value <module:Class> <o> <result…>          -> ok 1 | ok 0     (Spec.Resp.valueOK)
     spec status <module:Class> <o> <result…>         -> ok 1 | ok 0     (Spec.Resp.statusOK)
     spec bit <o> <i> <result…>                       -> ok 1 | ok 0     (Spec.Resp.bitOK)
@@ -135,6 +137,14 @@ def handle : List String → String
     match findClass k with
     | some c => "ok " ++ catName (Spec.Resp.catOf c)
     | none => "bad-op"
+  | ["spec", "row", k] =>
+    match Spec.Resp.table.find? fun r => r.key == k with
+    | some r =>
+      "ok exp=" ++ (if r.expected then "1" else "0") ++ " erra=" ++ (if r.errorAcceptable then "1" else "0") ++
+      " bits=" ++ "|".intercalate r.bits ++
+      " members=" ++ ",".intercalate (r.members.map fun m => m.1 ++ ":" ++ toString m.2) ++
+      " types=" ++ "|".intercalate (r.types.map fun t => toString t.1 ++ ":" ++ t.2)
+    | none => "ok absent"
   | "spec" :: "value" :: k :: o :: res =>
     match findClass k, parseOutcome o, parseResult res with
     | some c, some o, some r => b01 (Spec.Resp.valueOK c o r)
